@@ -152,6 +152,9 @@ Proof.
     apply N.ltb_lt. apply of_le_bound. exact F.
 Qed.
 
+Lemma uint_rt k n r : n < 256 ^ N.of_nat k -> dec (c_uint k) (le k n ++ r) = Some (n, r).
+Proof. intros H. apply (rt _ (c_uint_ok k)). cbn. apply N.ltb_lt. exact H. Qed.
+
 Lemma c_uint_min1 k : (1 <= k)%nat -> min1 (c_uint k).
 Proof. intros Hk a _. cbn. rewrite le_length. exact Hk. Qed.
 
@@ -316,12 +319,25 @@ Lemma c_opt_wf {A} b (c : codec A) o :
   wf (c_opt b c) o = true -> match o with Some a => b = true /\ wf c a = true | None => b = false end.
 Proof. destruct b, o; cbn; intros; try discriminate; auto. Qed.
 
-(** option on an explicit flag byte (zcash_encoding::Optional): 0 = None, 1 = Some *)
+(** option on an explicit flag byte (zcash_encoding::Optional): 0 = None, 1 = Some, anything
+    else is rejected *)
 Definition c_flagopt {A} (c : codec A) : codec (option A) :=
-  c_iso (c_dep c_u8 (fun f => c_opt (N.eqb f 1) c))
+  c_iso (c_dep (c_refine c_u8 (fun f => f <? 2)) (fun f => c_opt (N.eqb f 1) c))
         (fun o => match o with Some a => (1, Some a) | None => (0, None) end)
         (fun p => snd p)
         (fun _ => true).
+
+Lemma c_flagopt_ok {A} (c : codec A) : codec_ok c -> codec_ok (c_flagopt c).
+Proof.
+  intros Hc. apply c_iso_ok.
+  - apply c_dep_ok; [apply c_refine_ok, c_uint_ok | intros; apply c_opt_ok; exact Hc].
+  - intros [a|] _; reflexivity.
+  - intros [f o] W. cbn [c_dep wf fst snd] in W. apply andb_true_iff in W as [W1 W2].
+    apply c_refine_wf in W1. apply N.ltb_lt in W1. apply c_opt_wf in W2.
+    split; [|reflexivity]. destruct o as [a|]; cbn [snd].
+    + destruct W2 as [E _]. apply N.eqb_eq in E. subst. reflexivity.
+    + apply N.eqb_neq in W2. f_equal. lia.
+Qed.
 
 Definition c_inl {A B} (c : codec A) : codec (A + B) :=
   mkCodec (fun s => match s with inl a => enc c a | inr _ => [] end)
@@ -453,6 +469,10 @@ Definition dec_compact (bs : bytes) : option (N * bytes) :=
 Definition c_compact_raw : codec N :=
   mkCodec enc_compact dec_compact (fun n => n <? 18446744073709551616).
 
+Lemma pow256_2 : 256 ^ N.of_nat 2 = 65536. Proof. vm_compute. reflexivity. Qed.
+Lemma pow256_4 : 256 ^ N.of_nat 4 = 4294967296. Proof. vm_compute. reflexivity. Qed.
+Lemma pow256_8 : 256 ^ N.of_nat 8 = 18446744073709551616. Proof. vm_compute. reflexivity. Qed.
+
 Lemma c_compact_raw_ok : codec_ok c_compact_raw.
 Proof.
   split; cbn.
@@ -461,16 +481,16 @@ Proof.
     + cbn. rewrite E1. reflexivity.
     + apply N.ltb_ge in E1. destruct (n <=? 65535) eqn:E2.
       * apply N.leb_le in E2. cbn [app]. change (253 <? 253) with false. change (253 =? 253) with true. cbv iota.
-        rewrite (rt _ (c_uint_ok 2)) by (cbn; apply N.ltb_lt; change (256 ^ N.of_nat 2) with 65536; lia).
+        rewrite uint_rt by (rewrite pow256_2; lia).
         replace (n <? 253) with false by (symmetry; apply N.ltb_ge; lia). reflexivity.
       * apply N.leb_gt in E2. destruct (n <=? 4294967295) eqn:E3.
         -- apply N.leb_le in E3. cbn [app]. change (254 <? 253) with false. change (254 =? 253) with false.
            change (254 =? 254) with true. cbv iota.
-           rewrite (rt _ (c_uint_ok 4)) by (cbn; apply N.ltb_lt; change (256 ^ N.of_nat 4) with 4294967296; lia).
+           rewrite uint_rt by (rewrite pow256_4; lia).
            replace (n <? 65536) with false by (symmetry; apply N.ltb_ge; lia). reflexivity.
         -- apply N.leb_gt in E3. cbn [app]. change (255 <? 253) with false. change (255 =? 253) with false.
            change (255 =? 254) with false. change (255 =? 255) with true. cbv iota.
-           rewrite (rt _ (c_uint_ok 8)) by (cbn; apply N.ltb_lt; change (256 ^ N.of_nat 8) with 18446744073709551616; lia).
+           rewrite uint_rt by (rewrite pow256_8; lia).
            replace (n <? 4294967296) with false by (symmetry; apply N.ltb_ge; lia). reflexivity.
   - intros bs n r H. unfold dec_compact in H. destruct bs as [|flag t]; [discriminate|].
     destruct (flag <? 253) eqn:F0.
@@ -480,16 +500,16 @@ Proof.
       * apply N.eqb_eq in F1. subst flag.
         destruct (dec (c_uint 2) t) as [[m t']|] eqn:E; [|discriminate].
         destruct (m <? 253) eqn:M; [discriminate|]. inversion H; subst.
-        apply (canon _ (c_uint_ok 2)) in E as [-> W]. cbn in W. apply N.ltb_lt in W.
-        change (256 ^ N.of_nat 2) with 65536 in W. apply N.ltb_ge in M.
+        apply (canon _ (c_uint_ok 2)) in E as [-> W]. cbn [c_uint wf] in W. apply N.ltb_lt in W.
+        rewrite pow256_2 in W. apply N.ltb_ge in M.
         unfold enc_compact. rewrite (proj2 (N.ltb_ge n 253)) by lia.
         rewrite (proj2 (N.leb_le n 65535)) by lia. split; [reflexivity | apply N.ltb_lt; lia].
       * destruct (flag =? 254) eqn:F2.
         -- apply N.eqb_eq in F2. subst flag.
            destruct (dec (c_uint 4) t) as [[m t']|] eqn:E; [|discriminate].
            destruct (m <? 65536) eqn:M; [discriminate|]. inversion H; subst.
-           apply (canon _ (c_uint_ok 4)) in E as [-> W]. cbn in W. apply N.ltb_lt in W.
-           change (256 ^ N.of_nat 4) with 4294967296 in W. apply N.ltb_ge in M.
+           apply (canon _ (c_uint_ok 4)) in E as [-> W]. cbn [c_uint wf] in W. apply N.ltb_lt in W.
+           rewrite pow256_4 in W. apply N.ltb_ge in M.
            unfold enc_compact. rewrite (proj2 (N.ltb_ge n 253)) by lia.
            rewrite (proj2 (N.leb_gt n 65535)) by lia.
            rewrite (proj2 (N.leb_le n 4294967295)) by lia. split; [reflexivity | apply N.ltb_lt; lia].
@@ -497,11 +517,11 @@ Proof.
            apply N.eqb_eq in F3. subst flag.
            destruct (dec (c_uint 8) t) as [[m t']|] eqn:E; [|discriminate].
            destruct (m <? 4294967296) eqn:M; [discriminate|]. inversion H; subst.
-           apply (canon _ (c_uint_ok 8)) in E as [-> W]. cbn in W.
-           change (256 ^ N.of_nat 8) with 18446744073709551616 in W. apply N.ltb_ge in M.
+           apply (canon _ (c_uint_ok 8)) in E as [-> W]. cbn [c_uint wf] in W. apply N.ltb_lt in W.
+           rewrite pow256_8 in W. apply N.ltb_ge in M.
            unfold enc_compact. rewrite (proj2 (N.ltb_ge n 253)) by lia.
            rewrite (proj2 (N.leb_gt n 65535)) by lia.
-           rewrite (proj2 (N.leb_gt n 4294967295)) by lia. split; [reflexivity | exact W].
+           rewrite (proj2 (N.leb_gt n 4294967295)) by lia. split; [reflexivity | apply N.ltb_lt; exact W].
 Qed.
 
 Lemma enc_compact_nonempty n : (1 <= length (enc_compact n))%nat.
